@@ -1481,4 +1481,16 @@ theorem wrap_facts {c c' : CST} (hw : Wrap c c') :
     obtain ⟨i1, _, i3, i4⟩ := ih
     exact ⟨by simp only [CST.tree, i1], fun h => by simp [CST.isParen] at h, i3, i4⟩
 
+/-- any number of extra pairs of parentheses, one after the other, anywhere -/
+inductive Wraps : CST → CST → Prop
+  | refl (c : CST) : Wraps c c
+  | step {c c' c'' : CST} : Wraps c c' → Wrap c' c'' → Wraps c c''
+
+theorem wraps_facts {c c' : CST} (hw : Wraps c c') (h : c.WF) : c'.tree = c.tree ∧ c'.WF := by
+  induction hw with
+  | refl => exact ⟨rfl, h⟩
+  | step _ hs ih =>
+    obtain ⟨i1, _, i3, i4⟩ := wrap_facts hs
+    exact ⟨i1.trans ih.1, i3 ih.2.1, i4 ih.2.2⟩
+
 end Blots.ExprPeg
